@@ -280,4 +280,154 @@ theorem initArrays_shape (sel : Option (List Bytes)) (n : Nat) :
       · rename_i hl
         exact List.length_eq_zero_iff.1 (by simpa using hl)
 
+/-! ### the position map -/
+
+/-- a record of the file: either one the IFLR index skips (encrypted, or an EFLR) or a frame record -/
+def toRec (lp : List FrameType) : Rec ⊕ FrameA → Rec
+  | .inl r => r
+  | .inr f => frameRec lp f
+
+/-- the references of frame type `k`: position, recorded frame number, the first channel's values -/
+def refsOf (k : Nat) : Nat → List (Rec ⊕ FrameA) → List IflrRef
+  | _, [] => []
+  | pos, .inl _ :: its => refsOf k (pos + 1) its
+  | pos, .inr f :: its =>
+    match f.vals with
+    | some vs => if f.ft = k then ⟨pos, f.frameNo, vs.headD []⟩ :: refsOf k (pos + 1) its else refsOf k (pos + 1) its
+    | none => refsOf k (pos + 1) its
+
+theorem lookup_mapAppend_self (m : List (ObName × List IflrRef)) (k : ObName) (v : IflrRef) :
+    ((mapAppend m k v).lookup k).getD [] = (m.lookup k).getD [] ++ [v] := by
+  induction m with
+  | nil => simp [mapAppend, List.lookup]
+  | cons p m ih =>
+    obtain ⟨a, b⟩ := p
+    by_cases ha : a = k
+    · subst ha; simp [mapAppend, List.lookup]
+    · have hb : (k == a) = false := by simpa using fun h => ha h.symm
+      simp [mapAppend, ha, List.lookup, hb, ih]
+
+theorem lookup_mapAppend_other (m : List (ObName × List IflrRef)) (k k' : ObName) (v : IflrRef) (h : k' ≠ k) :
+    (mapAppend m k v).lookup k' = m.lookup k' := by
+  induction m with
+  | nil =>
+    have hb : (k' == k) = false := by simpa using h
+    simp [mapAppend, List.lookup, hb]
+  | cons p m ih =>
+    obtain ⟨a, b⟩ := p
+    by_cases ha : a = k
+    · subst ha
+      have hb : (k' == a) = false := by simpa using h
+      simp [mapAppend, List.lookup, hb]
+    · simp only [mapAppend, ha, if_false, List.lookup]
+      cases (k' == a) <;> simp [ih]
+
+theorem lookupFt_get (lp : List FrameType) (hnd : (lp.map FrameType.name).Nodup) (k : Nat) (ft : FrameType)
+    (hk : lp[k]? = some ft) : lookupFt lp ft.name = some ft := by
+  unfold lookupFt
+  induction lp generalizing k with
+  | nil => simp at hk
+  | cons a lp ih =>
+    have hnd' := List.nodup_cons.1 (show (a.name :: lp.map FrameType.name).Nodup from hnd)
+    cases k with
+    | zero => simp at hk; subst hk; simp
+    | succ k =>
+      simp only [List.getElem?_cons_succ] at hk
+      have hmem : ft ∈ lp := List.mem_of_getElem? hk
+      have hne : a.name ≠ ft.name := by
+        intro e; apply hnd'.1; rw [e]; exact List.mem_map_of_mem hmem
+      simp [List.find?, hne, ih hnd'.2 k hk]
+
+theorem name_inj (lp : List FrameType) (hnd : (lp.map FrameType.name).Nodup) (i j : Nat) (fi fj : FrameType)
+    (hi : lp[i]? = some fi) (hj : lp[j]? = some fj) (h : fi.name = fj.name) : i = j := by
+  have hi' : (lp.map FrameType.name)[i]? = some fi.name := by simp [hi]
+  have hj' : (lp.map FrameType.name)[j]? = some fj.name := by simp [hj]
+  rw [h] at hi'
+  have hil : i < (lp.map FrameType.name).length := by
+    rcases Nat.lt_or_ge i (lp.map FrameType.name).length with h | h
+    · exact h
+    · rw [List.getElem?_eq_none h] at hi'; simp at hi'
+  have hjl : j < (lp.map FrameType.name).length := by
+    rcases Nat.lt_or_ge j (lp.map FrameType.name).length with h | h
+    · exact h
+    · rw [List.getElem?_eq_none h] at hj'; simp at hj'
+  rw [List.getElem?_eq_getElem hil] at hi'
+  rw [List.getElem?_eq_getElem hjl] at hj'
+  have e : (lp.map FrameType.name)[i] = (lp.map FrameType.name)[j] :=
+    (Option.some.inj hi').trans (Option.some.inj hj').symm
+  exact (List.Nodup.getElem_inj_iff hnd).1 e
+
+theorem index_spec (lp : List FrameType) (hlp : lpOk lp) :
+    ∀ (items : List (Rec ⊕ FrameA)) (pos : Nat) (m : List (ObName × List IflrRef)),
+    (∀ r, .inl r ∈ items → (r.encrypted || r.isEflr) = true) → (∀ f, .inr f ∈ items → frameOk lp f) →
+    ∃ m', indexIflrs lp pos (items.map (toRec lp)) m = .ok m' ∧
+      ∀ k ft, lp[k]? = some ft → (m'.lookup ft.name).getD [] = (m.lookup ft.name).getD [] ++ refsOf k pos items
+  | [], pos, m, _, _ => ⟨m, rfl, by intro k ft _; simp [refsOf]⟩
+  | .inl r :: items, pos, m, hskip, hfr => by
+    obtain ⟨m', h1, h2⟩ := index_spec lp hlp items (pos + 1) m (fun r hr => hskip r (by simp [hr]))
+      (fun f hf => hfr f (by simp [hf]))
+    refine ⟨m', ?_, ?_⟩
+    · simp only [List.map_cons, toRec, indexIflrs, hskip r (by simp), if_true, h1]
+    · intro k ft hk; simp only [refsOf]; exact h2 k ft hk
+  | .inr f :: items, pos, m, hskip, hfr => by
+    have hfok := hfr f (by simp)
+    obtain ⟨hfno, hfok⟩ := hfok
+    cases hft : lp[f.ft]? with
+    | none => simp [hft] at hfok
+    | some ft =>
+      simp only [hft] at hfok
+      have hftmem : ft ∈ lp := List.mem_of_getElem? hft
+      obtain ⟨hname, hchne, hch⟩ := hlp.2 ft hftmem
+      cases hvals : f.vals with
+      | none =>
+        obtain ⟨m', h1, h2⟩ := index_spec lp hlp items (pos + 1) m (fun r hr => hskip r (by simp [hr]))
+          (fun f hf => hfr f (by simp [hf]))
+        have hhdr := TD.C03.readIflrHeader_enc ft.name f.frameNo [] hname hfno
+        refine ⟨m', ?_, ?_⟩
+        · simp only [List.map_cons, toRec, frameRec, hft, hvals, indexIflrs, Bool.or_self, Bool.false_eq_true,
+            if_false, hhdr, h1]
+        · intro k ft' hk; simp only [refsOf, hvals]; exact h2 k ft' hk
+      | some vs =>
+        simp only [hvals] at hfok
+        obtain ⟨hv, hne⟩ := hfok
+        have hhdr := TD.C03.readIflrHeader_enc ft.name f.frameNo (encFrameData ft.chans vs) hname hfno
+        cases hcs : ft.chans with
+        | nil => exact absurd hcs hchne
+        | cons c0 cs =>
+          rw [hcs] at hv
+          cases vs with
+          | nil => simp [valsOk] at hv
+          | cons v0 vss =>
+            obtain ⟨hlen, hvok, _⟩ := hv
+            have hdata : encFrameData ft.chans (v0 :: vss) = encValues c0.rc v0 ++ encFrameData cs vss := by
+              rw [hcs]; rfl
+            have hrd := TD.C03.readValues_enc c0.rc v0 (encFrameData cs vss) hvok
+            rw [hlen] at hrd
+            obtain ⟨m', h1, h2⟩ := index_spec lp hlp items (pos + 1) (mapAppend m ft.name ⟨pos, f.frameNo, v0⟩)
+              (fun r hr => hskip r (by simp [hr])) (fun f hf => hfr f (by simp [hf]))
+            refine ⟨m', ?_, ?_⟩
+            · cases hd : encFrameData ft.chans (v0 :: vss) with
+              | nil => exact absurd hd hne
+              | cons b bs =>
+                have hhdr' : readIflrHeader (encIflr ft.name f.frameNo (encFrameData ft.chans (v0 :: vss))) =
+                    .ok ((ft.name, f.frameNo), b :: bs) := by rw [hhdr, hd]
+                have hrd' : readValues c0.rc c0.count (b :: bs) = .ok (v0, encFrameData cs vss) := by
+                  rw [← hd, hdata]; exact hrd
+                have hlk := lookupFt_get lp hlp.1 f.ft ft hft
+                have hhdr2 := hhdr'
+                rw [hcs] at hhdr2
+                simp only [List.map_cons, toRec, frameRec, hft, hvals, indexIflrs, Bool.or_self, Bool.false_eq_true,
+                  if_false, hhdr2, hlk, hcs, hrd', h1]
+            · intro k ft' hk
+              rw [h2 k ft' hk]
+              simp only [refsOf, hvals, List.headD_cons]
+              by_cases hkk : f.ft = k
+              · subst hkk
+                have : ft' = ft := by rw [hft] at hk; exact (Option.some.inj hk).symm
+                subst this
+                simp [lookup_mapAppend_self, List.append_assoc]
+              · have hne' : ft'.name ≠ ft.name := by
+                  intro e; exact hkk (name_inj lp hlp.1 f.ft k ft ft' hft hk e.symm)
+                simp [hkk, lookup_mapAppend_other _ _ _ _ hne']
+
 end TD.C04
